@@ -761,6 +761,40 @@ func genSharedState(rt *rapid.T) ([]*lang.TopItem, []string) {
 		}
 		seqs = append(seqs, seq)
 	}
+	// two unions that share a case name, once bare and once with a payload: a use of the name means the
+	// case of the union declared last before it (the later registration shadows the earlier one)
+	if rapid.Bool().Draw(rt, "sharedCase") {
+		labels["two unions share a case name"] = true
+		bare := &lang.UnionDecl{Name: "Colr", Cases: []lang.UCase{{Name: "Cst"}, {Name: "Redd"}}}
+		pay := &lang.UnionDecl{Name: "Shpe", Cases: []lang.UCase{{Name: "Cst", Payload: lang.TString}, {Name: "Sqr", Payload: lang.TInt}}}
+		first, second := bare, pay
+		if rapid.Bool().Draw(rt, "payloadFirst") {
+			first, second = pay, bare
+		}
+		use := func(u *lang.UnionDecl) *lang.TopItem {
+			fn++
+			f := &lang.FuncDecl{Name: fmt.Sprintf("fn%d", fn), Ret: lang.TUnion(u.Name)}
+			if u.Cases[0].Payload != nil {
+				f.Body = lang.Blk(lang.Call("Cst", lang.TUnion(u.Name), lang.Str("x")))
+			} else {
+				f.Body = lang.Blk(lang.Var("Cst", lang.TUnion(u.Name)))
+			}
+			if rapid.Bool().Draw(rt, "caseInList") {
+				f.Ret = lang.TSlice(lang.TUnion(u.Name))
+				f.Body = lang.Blk(&lang.Expr{K: "slice", T: f.Ret, Args: []*lang.Expr{f.Body.Final}})
+			}
+			return &lang.TopItem{Func: f, Label: f.Name}
+		}
+		seq := []*lang.TopItem{{Types: []*lang.TypeDecl{{Union: first}}, Label: "union " + first.Name}}
+		for k := rapid.IntRange(0, 2).Draw(rt, "usesBetween"); k > 0; k-- {
+			seq = append(seq, use(first))
+		}
+		seq = append(seq, &lang.TopItem{Types: []*lang.TypeDecl{{Union: second}}, Label: "union " + second.Name})
+		for k := rapid.IntRange(1, 3).Draw(rt, "usesAfter"); k > 0; k-- {
+			seq = append(seq, use(second))
+		}
+		seqs = append(seqs, seq)
+	}
 	// merge the per-set sequences, each keeping its own order
 	pos := make([]int, len(seqs))
 	for {
